@@ -203,7 +203,11 @@ func c08Legal(flow, got []string) bool {
 			}
 			continue
 		}
-		alerts = 0
+		if k != "CCS" && k != "CCS(protected)" {
+			// the tolerance counts records that do not advance the handshake since the last handshake message or
+			// application record; a ChangeCipherSpec in between does not start the count afresh (as in crypto/tls)
+			alerts = 0
+		}
 		f = append(f, k)
 		if len(f) == len(flow) {
 			break
